@@ -21,7 +21,8 @@ pub fn avoid_all() -> Avoid {
         empty_nonretained: false,
         // R11 was repaired in /repo
         unsub_in_group: false,
-        group_stall: true,
+        // R10 was repaired in /repo (a member parked while it was not its turn is woken when the turn reaches it)
+        group_stall: false,
         recycled_id: true,
         persistent_unsub: true,
     }
